@@ -44,7 +44,7 @@ def targets(tier):
 
 def traces(target, rng, tier):
     depth, width, pw = target.params["depth"], target.params["width"], target.params["pw"]
-    n = (12 if tier == "quick" else 40) if target.big else (16 if tier == "quick" else 60)
+    n = (12 if tier == "quick" else 20) if target.big else (16 if tier == "quick" else 60)
     out = []
     for k in range(n):
         ptrig = [0.01, 0.05, 0.3, 1.0, 0.5][k % 5]
